@@ -52,7 +52,7 @@ fn random_bytes(r: &mut Rng) -> Vec<u8> {
 
 pub fn run(ctx: &mut Ctx) {
     let prop = "C15";
-    ctx.ev.rule = "(a) validator: generated transactions with zero/negative quantities, prices, fees, totals and ratios: validate() reports an error iff the property's predicate holds; compared with the Lean model's error count. (b) library under catch_unwind with a time limit: parse_file on arbitrary byte strings (random bytes, DSL alphabet soup, one-byte corruptions, non-ASCII) and calculate() on hostile ledgers (zero quantities and prices, 1e-28, magnitudes up to 7.9e28, sells first, dates 0001-01-01/9999-12-31/range edges): Ok or Err, never a panic — except inside known-finding class overflowMagnitude (D9). (c) the real binary: the same inputs as files, missing files, unwritable and pre-existing --output paths, default PDF path with an existing file: on failure non-zero exit (not 101, no signal), empty stdout, --output untouched; on success exit 0. Non-trivial = inputs that are rejected cleanly, and validator cases with ≥ 1 bad field; distinct by input.".into();
+    ctx.ev.rule = "(a) validator: generated transactions with zero/negative quantities, prices, fees, totals and ratios: validate() reports an error iff the property's predicate holds; compared with the Lean model's error count. (b) library under catch_unwind with a time limit: parse_file on arbitrary byte strings (random bytes, DSL alphabet soup, one-byte corruptions, non-ASCII) and calculate() on hostile ledgers (zero quantities and prices, 1e-28, magnitudes up to 7.9e28, sells first, dates 0001-01-01/9999-12-31/range edges): Ok or Err, never a panic — except inside known-finding class overflowMagnitude (D9). (d) the MCP tools: one pipelined session per 24 requests of malformed JSON texts (raw newlines inside strings, truncated arrays, BOM), hostile ledgers and random bytes over calculate_report, parse_transactions, convert_to_dsl, explain_matching: every request id answered exactly once, clean exit. (c) the real binary: the same inputs as files, missing files, unwritable and pre-existing --output paths, default PDF path with an existing file: on failure non-zero exit (not 101, no signal), empty stdout, --output untouched; on success exit 0. Non-trivial = inputs that are rejected cleanly, and validator cases with ≥ 1 bad field; distinct by input.".into();
     let mut r = Rng::new(ctx.seed ^ 0xC15);
     let ex = run_impl::wide_exemptions();
     // (a) validator
@@ -173,6 +173,36 @@ pub fn run(ctx: &mut Ctx) {
                     else { ctx.ev.violation("crash", format!("cgt-tool crashes on {name}: exit {:?}: {}", o.code, o.stderr.lines().next().unwrap_or("")), format!("# property C15\n# CLI crash\n{}\n", std::fs::read_to_string(s.path("in.cgt")).unwrap_or_default())); }
                 }
                 Some(_) => { if !o.stdout.is_empty() { ctx.ev.violation("oracle", "non-zero exit with a (partial) report on stdout".into(), format!("# property C15\n{}\n", std::fs::read_to_string(s.path("in.cgt")).unwrap_or_default())); } }
+            }
+        }
+        // (d) the MCP tools with hostile text: every request id answered exactly once, server survives
+        {
+            use super::c20::{call, session};
+            let malformed: Vec<String> = ["garbage", "", "[1,2", "[{\"date\":\"2024-01-01\"}]", "[{\"ticker\": \"AAPL\n\"}]", "[\n{\"date\": \"2024-01-01\"\n\"x\"}]", "[{\"a\":1,}]", "[\n\n]", "\u{feff}[]", "[\"\n", "{", "[{\"date\":\"2024-01-01\",\n\"ticker\":\"A\",\"action\":\"SPLIT\"}]", "\n[", "[\n", "\"\n\"", "[{\"date\":\"9999-99-99\",\"ticker\":\"A\",\"action\":\"BUY\",\"amount\":\"1\",\"price\":\"1\"}]"].iter().map(|x| x.to_string()).collect();
+            let mut reqs = Vec::new();
+            let mut overflowish: std::collections::BTreeSet<u64> = Default::default();
+            let mut id = 500u64;
+            for t in &malformed { for tool in ["calculate_report", "parse_transactions", "convert_to_dsl"] { reqs.push(call(id, tool, serde_json::json!({"transactions": t}))); id += 1; } reqs.push(call(id, "explain_matching", serde_json::json!({"transactions": t, "ticker": "A", "disposal_date": "2024-01-01"}))); id += 1; }
+            for _ in 0..ctx.n(12, 200) {
+                let l = hostile_ledger(&mut r);
+                if overflow_class(&l) { overflowish.insert(id); }
+                reqs.push(call(id, "calculate_report", serde_json::json!({"transactions": ledger::dsl(&l)}))); id += 1;
+                let bytes = String::from_utf8_lossy(&random_bytes(&mut r)).to_string();
+                reqs.push(call(id, *r.pick(&["calculate_report", "parse_transactions", "convert_to_dsl"]), serde_json::json!({"transactions": bytes}))); id += 1;
+            }
+            for chunk in reqs.chunks(24) {
+                ctx.ev.evaluations += chunk.len() as u64;
+                ctx.ev.count_n("mcp:hostile-requests", chunk.len() as u64);
+                let sn = session(chunk, true);
+                let case = format!("# property C15\n# MCP session (pipelined), `cgt-tool mcp` on stdio after the initialize handshake\n{}\n", chunk.iter().map(|v| v.to_string()).collect::<Vec<_>>().join("\n"));
+                for q in chunk {
+                    let qid = q["id"].as_u64().unwrap_or(0);
+                    let got = sn.responses.iter().filter(|v| v["id"].as_u64() == Some(qid)).count();
+                    if got == 1 { continue; }
+                    if got == 0 && overflowish.contains(&qid) { ctx.ev.known("overflowMagnitude", D9); continue; }
+                    ctx.ev.violation("crash", format!("MCP request id {qid} ({}) with hostile text received {got} responses", q["params"]["name"].as_str().unwrap_or("?")), format!("# property C15\n# MCP: this tools/call request is not answered exactly once\n{}\n# whole session:\n{case}", q));
+                }
+                if !sn.exit_ok { ctx.ev.violation("crash", "the MCP server does not exit cleanly after a hostile session".into(), case.clone()); }
             }
         }
     } else { ctx.ev.notes.push("cgt-tool binary not found: CLI part skipped".into()); }
